@@ -92,7 +92,10 @@ def mask_banner(s):
 def unpad_f(field):
     """F-binding result 'raw\\x1flen' -> (raw, len)"""
     raw, _, ln = field.rpartition("\x1f")
-    return raw, int(ln)
+    try:
+        return raw, int(ln)
+    except ValueError:
+        return field, -1       # malformed answer: compares unequal to every expectation
 
 
 def f_expected(cstr, buflen):
